@@ -7,10 +7,11 @@ C02 — a RE-ENTRANT `on_miss`: a callback that itself uses the cache before it 
 `LRI.__getitem__` / `LRU.__getitem__` run `ret = self[key] = self.on_miss(key)` under `self._lock`,
 an RLock, so `on_miss` may call any method of the very cache that is waiting for its result
 (a self-priming loader stores the key itself, a loader looks other keys up, drops keys, clears …).
-Here `on_miss(k)` is a PROGRAM: a list of dict-API calls on the cache (`acts`) followed by its
-outcome (`res`: return a value / raise KeyError / raise another exception).  The calls are executed
-one after the other; the first one that raises ends the program with that exception (the callback
-has no `try`).  Lookups inside the program may miss and call `on_miss` again, to any depth; the
+Here `on_miss(k)` is a STRATEGY (`OmProg`): it makes dict-API calls on the cache, one after the other,
+each chosen according to the results (values, KeyError, other exceptions) of the previous ones, and
+finally returns a value / raises KeyError / raises another exception; it may also depend on the
+keys it has been called with before (its own state).  Lookups among its calls may miss and call
+`on_miss` again, to any depth; the
 natural number `fuel` is the nesting depth at which `on_miss` raises instead of running its program
 (in CPython: RecursionError; in the harness: the callback's own depth guard), so every function
 below is total and all theorems hold for every `fuel`.
@@ -30,13 +31,26 @@ namespace C02
 
 variable {K V C : Type} [DecidableEq K]
 
-/-- what a call `on_miss(k)` does: `acts` on the cache, then `res` -/
-structure OmProg (K V : Type) where
-  acts : List (Op K V)
-  res  : OmRes V
+/-- what a call `on_miss(k)` does, as a STRATEGY over the dict API of the cache that called it: either it is
+    done — it returns a value, raises KeyError or raises another exception — or it makes one call `op` on the
+    cache and continues according to what that call returned or raised (`Out … Unit`: the result with the payload
+    of copy() forgotten).  Any branching on results, any `try … except` around its calls, any number of calls. -/
+inductive OmProg (K V : Type) where
+  | done (r : OmRes V)
+  | call (op : Op K V) (next : Out K V Unit → OmProg K V)
 
 /-- an `on_miss` that does not touch the cache -/
-def OmProg.pure (r : OmRes V) : OmProg K V := ⟨[], r⟩
+def OmProg.pure (r : OmRes V) : OmProg K V := .done r
+
+/-- the straight-line callbacks of the harness: the calls in order, then the outcome `r`; a call flagged `true`
+    is wrapped in `try: … except Exception: pass`, an exception of any other call ends the callback with it -/
+def OmProg.ofList : List (Bool × Op K V) → OmRes V → OmProg K V
+  | [], r => .done r
+  | (g, a) :: as, r => .call a fun o =>
+    match o with
+    | .keyError => if g then OmProg.ofList as r else .done .keyError
+    | .raised => if g then OmProg.ofList as r else .done .error
+    | _ => OmProg.ofList as r
 
 /-- is the call a lookup through `__getitem__` (item get, get, setdefault)? -/
 def Op.isLookup : Op K V → Bool
@@ -47,6 +61,7 @@ def Op.isLookup : Op K V → Bool
 
 /-- the primitive steps `__getitem__` / `get` / `setdefault` are made of, and the other methods -/
 structure Mach (K V C : Type) where
+  log     : C → List K                        -- the keys on_miss has been called with so far (its own history)
   find    : C → K → Bool                      -- `self._link_lookup[key]` succeeds
   hit     : C → K → C × Out K V C             -- the rest of `__getitem__` when it does
   missed  : C → K → C                         -- `self.miss_count += 1`, and on_miss is entered with `key`
@@ -68,40 +83,38 @@ def Mach.stepWith (M : Mach K V C) (g : C → K → C × Out K V C) (c : C) (op 
     | r => r
   | op => M.step c op
 
-/-- the body of an `on_miss` program: calls in order, the first exception ends it -/
-def runWith (st : C → Op K V → C × Out K V C) : C → List (Op K V) → C × Option (Out K V C)
-  | c, [] => (c, none)
-  | c, a :: as =>
-    match st c a with
-    | (c', .keyError) => (c', some .keyError)
-    | (c', .raised) => (c', some .raised)
-    | (c', _) => runWith st c' as
+/-- running a callback: its calls are public method calls `st` on the cache -/
+def runProg (st : C → Op K V → C × Out K V C) : C → OmProg K V → C × OmRes V
+  | c, .done r => (c, r)
+  | c, .call op next =>
+    match st c op with
+    | (c', o) => runProg st c' (next o.shape)
 
-/-- `__getitem__` with the program table `P` as on_miss; `fuel` = remaining nesting depth -/
-def Mach.rget (M : Mach K V C) (P : K → OmProg K V) : Nat → C → K → C × Out K V C
+/-- `__getitem__` with the callback table `P` as on_miss: `P log k` is what on_miss does when called with `k`
+    after having been called with the keys `log` (so the callback may keep state of its own); `fuel` =
+    remaining nesting depth -/
+def Mach.rget (M : Mach K V C) (P : List K → K → OmProg K V) : Nat → C → K → C × Out K V C
   | 0 => fun c k =>
     if M.find c k then M.hit c k else (M.missed c k, .raised)
   | n + 1 => fun c k =>
     if M.find c k then M.hit c k else
-    match runWith (M.stepWith (M.rget P n)) (M.missed c k) (P k).acts with
-    | (c2, some e) => (c2, e)                      -- the program raised: nothing is stored
-    | (c2, none) =>
-      match (P k).res with
-      | .ret v => (M.setitem c2 k v, .val v)       -- ret = self[key] = on_miss(key)
-      | .keyError => (c2, .keyError)
-      | .error => (c2, .raised)
+    match runProg (M.stepWith (M.rget P n)) (M.missed c k) (P (M.log c) k) with
+    | (c2, .ret v) => (M.setitem c2 k v, .val v)       -- ret = self[key] = on_miss(key)
+    | (c2, .keyError) => (c2, .keyError)               -- the callback raised: nothing is stored
+    | (c2, .error) => (c2, .raised)
 
 /-- one public method call on a cache whose on_miss is the program table `P` -/
-def Mach.rstep (M : Mach K V C) (P : K → OmProg K V) (fuel : Nat) : C → Op K V → C × Out K V C :=
+def Mach.rstep (M : Mach K V C) (P : List K → K → OmProg K V) (fuel : Nat) : C → Op K V → C × Out K V C :=
   M.stepWith (M.rget P fuel)
 
 /-- a whole history on one cache -/
-def Mach.rrun (M : Mach K V C) (P : K → OmProg K V) (fuel : Nat) (c : C) (ops : List (Op K V)) : C :=
+def Mach.rrun (M : Mach K V C) (P : List K → K → OmProg K V) (fuel : Nat) (c : C) (ops : List (Op K V)) : C :=
   ops.foldl (fun c op => (M.rstep P fuel c op).1) c
 
 /-! the three instances -/
 
 def Cache.mach [DecidableEq V] : Mach K V (Cache K V) where
+  log c := c.omLog
   find c k := (lookup k c.ring).isSome
   hit c k := c.getitem k
   missed c k := { c with miss := c.miss + 1, omLog := c.omLog ++ [k] }
@@ -110,6 +123,7 @@ def Cache.mach [DecidableEq V] : Mach K V (Cache K V) where
   step := C02.step
 
 def HCache.mach [DecidableEq V] : Mach K V (HCache K V) where
+  log c := c.omLog
   find c k := (lookup k c.ll.table).isSome
   hit c k := c.getitem k
   missed c k := { c with miss := c.miss + 1, omLog := c.omLog ++ [k] }
@@ -118,6 +132,7 @@ def HCache.mach [DecidableEq V] : Mach K V (HCache K V) where
   step := hstep
 
 def Ref.mach [DecidableEq V] : Mach K V (Ref K V) where
+  log s := s.omLog
   find s k := (C02.lookup k s.ents).isSome
   hit s k := s.lookup k
   missed s k := { s with miss := s.miss + 1, omLog := s.omLog ++ [k] }
@@ -142,15 +157,15 @@ def rwstepG (st : C → Op K V → C × Out K V C) (wst : List C → WOp K V →
 variable [DecidableEq V]
 
 /-- ring model -/
-def rwstep (P : K → OmProg K V) (fuel : Nat) : List (Cache K V) → WOp K V → List (Cache K V) × Out K V (Cache K V) :=
+def rwstep (P : List K → K → OmProg K V) (fuel : Nat) : List (Cache K V) → WOp K V → List (Cache K V) × Out K V (Cache K V) :=
   rwstepG (Cache.mach.rstep P fuel) wstep
 
 /-- pointer-level model -/
-def rhwstep (P : K → OmProg K V) (fuel : Nat) : List (HCache K V) → WOp K V → List (HCache K V) × Out K V (HCache K V) :=
+def rhwstep (P : List K → K → OmProg K V) (fuel : Nat) : List (HCache K V) → WOp K V → List (HCache K V) × Out K V (HCache K V) :=
   rwstepG (HCache.mach.rstep P fuel) hwstep
 
 /-- reference cache -/
-def Ref.rwstep (P : K → OmProg K V) (fuel : Nat) : List (Ref K V) → WOp K V → List (Ref K V) × Out K V (Ref K V) :=
+def Ref.rwstep (P : List K → K → OmProg K V) (fuel : Nat) : List (Ref K V) → WOp K V → List (Ref K V) × Out K V (Ref K V) :=
   rwstepG (Ref.mach.rstep P fuel) Ref.wstep
 
 def wrunG (st : List C → WOp K V → List C × Out K V C) (w : List C) (ops : List (WOp K V)) : List C :=
